@@ -1066,7 +1066,7 @@ class Interp:
     def getitem(self, o, idx, ctx):
         from . import symlist, absarr
         if isinstance(o, Opaque):
-            raise Unsupported("subscript of opaque value %r" % o)
+            return Opaque("%s[...]" % o.why)
         if isinstance(o, (list, tuple, str)):
             if isinstance(idx, SliceVal):
                 if all(v is None or isinstance(v, int) for v in (idx.lo, idx.hi, idx.step)):
